@@ -175,12 +175,13 @@ def split_lines(v):
     return out
 
 
-def split_commas(v):
+def split_commas(v, sep=","):
+    """text.split(sep): only literal pieces can hold the separator (fields are numbers / names)"""
     parts = v.parts if isinstance(v, Cat) else (v,)
     toks = [[]]
     for p in parts:
         if isinstance(p, Lit):
-            segs = p.s.split(",")
+            segs = p.s.split(sep)
             for i, sg in enumerate(segs):
                 if i:
                     toks.append([])
